@@ -301,7 +301,14 @@ func (gq *Schema) AddExtensions(e ...Extension) {
 // map-reduce
 func typeMapReducer(schema *Schema, typeMap TypeMap, objectType Type) (TypeMap, error) {
 	var err error
-	if objectType == nil || objectType.Name() == "" {
+	if objectType == nil {
+		return typeMap, nil
+	}
+	// an error parked on a type by its constructor surfaces wherever the type is referenced
+	if err := objectType.Error(); err != nil {
+		return typeMap, err
+	}
+	if objectType.Name() == "" {
 		return typeMap, nil
 	}
 
